@@ -421,7 +421,8 @@ Definition ignore_local (m : rmap) : res rmap :=
     let remain := filter (fun r => negb (is_local r)) nodes in
     match append_all remain [] with
     | Ok other => intersect (map cur m) (map cur other) m
-    | _ => Panic               (* Factory.FromResourceSlice panics on an id clash *)
+    | _ => Err                 (* the kept resources are Appended to a fresh ResMap: an id clash is an error
+                                  (fix 66fde0c; Factory.FromResourceSlice used to panic here) *)
     end.
 
 (* ---------- the tail of krusty.Run on the accumulated map ---------- *)
